@@ -21,6 +21,22 @@ CLAIMED['C16'] = dict(
    note="Assumes: clang AST = compiled program; cxx2c; models/std.h string_view model (operator[], remove_prefix/suffix, substr, compare; find_first_of as an assumed contract at a ghost index); definitional unfoldings of the prophecy ghost g_a (ghost-ensures of pop_front_unichar, present only where it is replaced by its contract); spec/utf8_ref.h as a correct reading of Unicode/MQTT; CBMC + cvc5 (SAT array theory does not finish on the symbolic-size buffer) + cadical.",
    design='5 C16')
 
+CLAIMED['C17'] = dict(
+   category='proof',
+   text="FRAGMENT, proved: the variable byte integer encoder (to_variable_bytes) and its size function (variable_length), for all int32 values: exactly the canonical MQTT 1.5.5 encoding is appended (continuation bits, 7-bit groups, minimal length, boundaries 127/128, 16383/16384, 2097151/2097152), nothing is appended above 268435455, earlier bytes of the string are unchanged; byte_size agrees with the bytes written. NOT decided here: the per-packet expression-template encoders (encode_connect ... encode_auth, props_val), i.e. 'Remaining Length equals body size' and 'properties allowed per packet type'.",
+   note="Assumes the trusted base of DESIGN 7; mutable std::string modelled as a view with room behind it (allocation never fails). Loop bounded by operand width (unwind 5 with unwinding assertion = complete).",
+   design='5 C17')
+CLAIMED['C18'] = dict(
+   category='proof',
+   text="FRAGMENT, proved: functional contracts of the hand-written X3 parsers against references from MQTT 5: varint_parser::parse (accepts exactly 1-4 byte encodings, value, advance, failure restores first), len_prefix_parser::parse (succeeds iff 2+len bytes available; attribute = those bytes), scope_limit (subject sees exactly [iter, iter+limit), rejected if beyond last), verbatim_parser, and that an empty remaining range is 'no properties' for all 14 property-list parsers. NOT decided: whole-packet equality through the Spirit X3 composition (assumed contracts on X3 built-ins), re-encoding.",
+   note="Assumed contracts: x3::skip_over (no skipper installed), x3::big_word, generic X3 subject parser safety contract, properties<...>::apply_on invokes the functor at most once. 16/14/12 template instantiations emit byte-identical C and are verified once.",
+   design='5 C18')
+CLAIMED['C19'] = dict(
+   category='proof',
+   text="PROOF of the memory-safety contracts of all hand-written parsing and framing code, for every byte content and every length: uniform parser safety contract (every dereference inside [first,last), first stays in range, failure restores first, termination) for varint/len_prefix/scope_limit/verbatim and the 14 prop_parser<Props>::parse instantiations (the parser that computes its own end); assemble_op::operator()(on_read) (received span arithmetic, frame handed to dispatch lies inside the received bytes), assemble_op::dispatch (decode_packet_id only with two bytes available), valid_header vs MQTT Table 2-2, connect_op::operator()(on_fixed_header) (buffer given to async_read lies inside the string; [first,last) inside it), to_reason_code bounds (shared with C20). NOT decided: Spirit X3 built-ins (assumed safe inside [first,last)), the asynchronous recovery after a malformed packet, chunking independence as a lemma (not mechanised).",
+   note="Assumed: X3 built-in safety contracts, Asio writes at most n bytes at p for buffer(p,n), transport delivers at most the bytes it was given, perform() re-enters on_read only with a non-empty span; ghost window [g_lo,g_hi) equalities are assumed only where a contract is enforced. Native replay driver (ASan) for the decoders; framing/handshake violations are reported without a native input (no-failing-input-found).",
+   design='5 C19')
+
 NOT_APPLICABLE = {
  'C02': "liveness under fairness over unbounded fault sequences ('eventually completes once the broker stays reachable'): a function contract cannot state 'eventually', and there is no CBMC model of Boost.Asio scheduling; its function-local safety crumbs are carried under C03/C05 (DESIGN 5 C02)",
 }
